@@ -227,6 +227,115 @@ def validate(chk: Check, records, name, batch=60):
     return verdicts
 
 
+# ---- (a) small-scope exhaustive programs (MC_FJAsm) ---------------------------------------------------
+def tla_int(v: int) -> str:
+    mag = list(abs(v).to_bytes((abs(v).bit_length() + 7) // 8, "little")) if v else []
+    return f"[neg |-> {'TRUE' if v < 0 else 'FALSE'}, mag |-> <<{', '.join(map(str, mag))}>>]"
+
+
+def tla_e(e: dict) -> str:
+    return f'[b |-> "{e["b"]}", n |-> "{e["n"]}", m |-> {tla_int(e.get("m", 1))}, o |-> {tla_int(e["o"])}]'
+
+
+def tla_stmt(s: dict) -> str:
+    k = s["k"]
+    if k == "op":
+        return f'[k |-> "op", f |-> {tla_e(s["f"])}, j |-> {tla_e(s["j"])}]'
+    if k == "label":
+        return f'[k |-> "label", n |-> "{s["n"]}"]'
+    if k == "wflip":
+        return f'[k |-> "wflip", a |-> {tla_e(s["a"])}, v |-> {tla_e(s["v"])}, r |-> {tla_e(s["r"])}]'
+    if k in ("pad", "reserve"):
+        return f'[k |-> "{k}", n |-> {s["n"]}]'
+    raise AssertionError(k)
+
+
+def alphabet(w: int, small: bool) -> List[dict]:
+    dw = 2 * w
+    top = (1 << w) - 1
+    hi = (1 << (w - 1)) | 1
+    A = [
+        {"k": "label", "n": "l1"},
+        {"k": "label", "n": "l2"},
+        {"k": "op", "f": E("num", o=5), "j": E("lbl", "l2")},
+        {"k": "op", "f": E("lbl", "l1"), "j": E("cur")},
+        {"k": "wflip", "a": E("lbl", "l1"), "v": E("num", o=hi), "r": E("cur")},
+        {"k": "wflip", "a": E("num", o=dw), "v": E("num", o=1), "r": E("lbl", "l2")},
+        {"k": "pad", "n": 2},
+        {"k": "reserve", "n": dw},
+        {"k": "wflip", "a": E("num", o=dw + w), "v": E("num", o=0), "r": E("cur")},
+    ]
+    if not small:
+        A += [
+            {"k": "op", "f": E("cur"), "j": E("num", o=2 * dw)},
+            {"k": "op", "f": E("num", o=top), "j": E("lbl", "l1", dw)},
+            {"k": "wflip", "a": E("lbl", "l2", w), "v": E("num", o=3), "r": E("cur")},
+            {"k": "reserve", "n": w // 2},
+            {"k": "wflip", "a": E("num", o=top - 3), "v": E("num", o=0x18), "r": E("cur")},
+        ]
+    return A
+
+
+def from_json_prog(jp: List[dict]) -> List[dict]:
+    def iv(j):
+        m = int.from_bytes(bytes(j["mag"]), "little")
+        return -m if j["neg"] else m
+
+    def ee(j):
+        return {"b": j["b"], "n": j["n"], "o": iv(j["o"]), "m": iv(j["m"])}
+    out = []
+    for s in jp:
+        k = s["k"]
+        if k == "op":
+            out.append({"k": k, "f": ee(s["f"]), "j": ee(s["j"])})
+        elif k == "wflip":
+            out.append({"k": k, "a": ee(s["a"]), "v": ee(s["v"]), "r": ee(s["r"])})
+        else:
+            out.append(dict(s))
+    return out
+
+
+def exhaustive(chk: Check, so: str, quick: bool, only_labels: bool):
+    plans = [(8, False, 3 if not quick else 2), (8, True, 3)] if quick else [(8, False, 3), (16, False, 3), (8, True, 4), (16, True, 4)]
+    jobs = []
+    for w, small, maxlen in plans:
+        A = alphabet(w, small)
+        root = "---- MODULE MCasm ----\nEXTENDS MC_FJAsm\nAlpha_def == <<" + ",\n  ".join(tla_stmt(s_) for s_ in A) + ">>\n====\n"
+        cfg = (f"SPECIFICATION Spec\nCONSTANTS\n  W = {w}\n  MaxLen = {maxlen}\n  Alphabet <- Alpha_def\n"
+               "INVARIANT RefAccepted\nINVARIANT MutantRejected\nINVARIANT LayoutSane\nCONSTRAINT Emit\nCHECK_DEADLOCK FALSE\n")
+        jobs.append(dict(module="MCasm", cfg_text=cfg, extra_modules={"MCasm": root}, workers=1, heap="4g", timeout=3000))
+    work = []
+    for (w, small, maxlen), res in zip(plans, tlc.run_many(jobs, parallel=4)):
+        chk.add_tlc(res, f"MC_FJAsm[w={w},alphabet={'small' if small else 'full'},len<={maxlen}]", exhaustive=True)
+        if not res.ok:
+            raise MachineryFailure(f"MC_FJAsm: an invariant of the specification itself is violated: {res.violation}")
+        progs = res.emitted.get("X", [])
+        if not progs:
+            raise MachineryFailure("MC_FJAsm emitted no programs")
+        for x in progs:
+            work.append((len(work), w, len(work) % 4, from_json_prog(x["prog"])))
+    recs = par.pmap(_asm_case, work, so_path=so, procs=16, chunksize=16)
+    verdicts = validate(chk, recs, "Trace_FJAsm[exhaustive]", batch=150)
+    chk.traces += len(recs)
+    chk.extra["exhaustive_programs"] = len(recs)
+    chk.extra["exhaustive_outcomes"] = {o: sum(1 for r in recs if r["obs"]["outcome"] == o) for o in sorted({r["obs"]["outcome"] for r in recs})}
+    report(chk, recs, verdicts, only_labels, "exhaustive")
+
+
+def report(chk: Check, recs, verdicts, only_labels: bool, part: str):
+    for i, rec in enumerate(recs):
+        v = verdicts.get(i)
+        if v is None:
+            raise MachineryFailure(f"no verdict for record {i}")
+        fail = v["fail"]
+        if only_labels:
+            fail = [c for c in fail if c == "labels"]
+        if fail:
+            chk.violation({"clauses": ",".join(sorted(fail)), "outcome": rec["obs"]["outcome"].split(":")[0]},
+                          f"[{part}] w={rec['w']} v{rec['version']}: assembled program rejected by Trace_FJAsm: {fail}; outcome {rec['obs']['outcome']} {rec['msg']}; spec {v['spec']}",
+                          {"source": rec["src"], "w": rec["w"], "version": rec["version"], "outcome": rec["obs"]["outcome"], "msg": rec["msg"], "verdict": v})
+
+
 def run(chk: Check, replay=None, only_labels: bool = False):
     quick = chk.tier == "quick"
     rng = random.Random(chk.seed + 2)
@@ -246,14 +355,5 @@ def run(chk: Check, replay=None, only_labels: bool = False):
     chk.extra["generated_programs"] = ncases
     chk.extra["outcomes"] = {o: sum(1 for r in recs if r["obs"]["outcome"] == o) for o in sorted({r["obs"]["outcome"] for r in recs})}
     chk.sample({"kind": "primitive program", "source": recs[0]["src"], "outcome": recs[0]["obs"]["outcome"]})
-    for i, rec in enumerate(recs):
-        v = verdicts.get(i)
-        if v is None:
-            raise MachineryFailure(f"no verdict for record {i}")
-        fail = v["fail"]
-        if only_labels:
-            fail = [c for c in fail if c == "labels"]
-        if fail:
-            chk.violation({"clauses": ",".join(sorted(fail)), "outcome": rec["obs"]["outcome"].split(":")[0]},
-                          f"w={rec['w']} v{rec['version']}: assembled program rejected by Trace_FJAsm: {fail}; outcome {rec['obs']['outcome']} {rec['msg']}; spec {v['spec']}",
-                          {"source": rec["src"], "w": rec["w"], "version": rec["version"], "outcome": rec["obs"]["outcome"], "msg": rec["msg"], "verdict": v})
+    report(chk, recs, verdicts, only_labels, "generated")
+    exhaustive(chk, so, quick, only_labels)
